@@ -58,6 +58,17 @@ func guardOfCall(p *core.Prog, ci ssa.Instruction) (conds []core.Cond, g *core.G
 // mode: "equiv" (guard ⇔ spec) or "implies" (guard ⇒ spec).
 func compareGuard(g *core.GuardEval, conds []core.Cond, roles []string, dom []int64, spec func(env map[string]int64) bool, mode string) (ok bool, witness string, n int, err error) {
 	ok = true
+	// conjuncts contributed by earlier early-exits that speak about terms outside the rule's model are dropped
+	var kept []core.Cond
+	for _, cd := range conds {
+		if cd.FromExit {
+			if _, e := g.Terms([]core.Cond{cd}); e != nil {
+				continue
+			}
+		}
+		kept = append(kept, cd)
+	}
+	conds = kept
 	n = core.EnumEnvs(roles, dom, func(env map[string]int64) bool {
 		gv, e := g.Eval(conds, env)
 		if e != nil {
